@@ -176,6 +176,8 @@ func generateMore(w *bufio.Writer, r *rand.Rand, kind string, n int, args []stri
 		}
 		genProg(w, r, n, progOpts{mode: mode, exprDepth: depth, signRuns: fl&1 != 0, divs: fl&2 != 0, equs: fl&4 != 0,
 			asserts: fl&8 != 0, fors: fl&16 != 0, illegal88: fl&32 != 0, maxInstr: mi}, fl&64 != 0)
+	case "cli":
+		genCli(w, r, n)
 	case "listing":
 		mode := int64(2)
 		if len(args) > 0 {
